@@ -391,3 +391,31 @@ fn c14_tlsdesc_call_consistent() {
         }
     }
 }
+
+/// C01(b): the x86-64 PLT stub `endbr64; bnd jmp *disp32(%rip); nopl` jumps through exactly its GOT slot:
+/// FF /4 with RIP-relative operand at stub+7, next instruction at stub+0xb, so slot = plt + 0xb + disp32;
+/// a distance that does not fit the signed 32-bit displacement is an error, never a wrapped displacement.
+#[kani::proof]
+#[kani::unwind(18)]
+#[kani::stub(std::fmt::format, stub_format)]
+#[kani::stub(std::backtrace::Backtrace::capture, stub_backtrace)]
+fn c01_x86_64_plt_jumps_through_its_got_slot() {
+    let plt: u64 = kani::any();
+    let got: u64 = kani::any();
+    kani::assume(plt < (1 << 62));
+    let mut buf = [0u8; 16];
+    let r = ElfX86_64::write_plt_entry(&mut buf, got, plt);
+    let ok = r.is_ok();
+    std::mem::forget(r);
+    let dist = (got as i128) - (plt as i128 + 0xb);
+    let fits = dist >= -(1i128 << 31) && dist < (1i128 << 31);
+    kani::cover!(ok && got < plt, "GOT below the PLT");
+    kani::cover!(!ok, "out of range reported");
+    assert!(ok == fits, "C01 PLT range error exactly when the GOT slot is out of rel32 reach");
+    if ok {
+        assert!(buf[0..4] == [0xf3, 0x0f, 0x1e, 0xfa], "C01 PLT stub starts with endbr64");
+        assert!(buf[4] == 0xf2 && buf[5] == 0xff && buf[6] == 0x25, "C01 PLT stub is bnd jmp *disp32(%rip)");
+        let disp = i32::from_le_bytes([buf[7], buf[8], buf[9], buf[10]]) as i64;
+        assert!((plt + 0xb).wrapping_add(disp as u64) == got, "C01 PLT stub jumps through exactly its GOT slot");
+    }
+}
